@@ -91,8 +91,26 @@ fn call_on(a: &Sparse<f64>, b: &[f64], kind: &str, itol: usize, x: &mut Vec<f64>
 }
 /// one solver call on a matrix freshly assembled from the triplets
 fn call(s: &Sys, kind: &str, itol: usize, x: &mut Vec<f64>, budget: usize, tol: f64) -> CallOut {
-    let mut trip = s.trip.clone();
     let n = s.n;
+    if budget > 50_000_000 {
+        // With an (all but) unlimited budget a solver that never meets its stopping test would run for ever: the call is made on a
+        // watchdog thread; a call that has not returned after 10 s is reported like a panic ("no answer") and the thread is abandoned
+        // (the process ends with main).  After three such calls the remaining ones are not started.
+        static HUNG: std::sync::atomic::AtomicUsize = std::sync::atomic::AtomicUsize::new(0);
+        if HUNG.load(std::sync::atomic::Ordering::Relaxed) >= 3 { return CallOut { panic: true, ok: false, k: 0, err: f64::NAN }; }
+        let (trip0, b, kind_s, x0) = (s.trip.clone(), s.b.clone(), kind.to_string(), x.clone());
+        let (tx, rx) = std::sync::mpsc::channel();
+        std::thread::spawn(move || {
+            let mut trip = trip0; let mut xx = x0;
+            let out = match guarded(|| Sparse::<f64>::from_triplets(n, n, &mut trip)) { Ok(a) => call_on(&a, &b, &kind_s, itol, &mut xx, budget, tol), Err(_) => CallOut { panic: true, ok: false, k: 0, err: f64::NAN } };
+            let _ = tx.send((out, xx));
+        });
+        return match rx.recv_timeout(std::time::Duration::from_secs(10)) {
+            Ok((o, xx)) => { *x = xx; o }
+            Err(_) => { HUNG.fetch_add(1, std::sync::atomic::Ordering::Relaxed); CallOut { panic: true, ok: false, k: 0, err: f64::NAN } }
+        };
+    }
+    let mut trip = s.trip.clone();
     match guarded(|| Sparse::<f64>::from_triplets(n, n, &mut trip)) {
         Ok(a) => call_on(&a, &s.b, kind, itol, x, budget, tol),
         Err(_) => CallOut { panic: true, ok: false, k: 0, err: f64::NAN },
